@@ -13,7 +13,7 @@ import itertools
 import os
 import sys
 sys.path.insert(0, os.path.dirname(os.path.dirname(os.path.abspath(__file__))))
-from rac.common import Rac
+from rac.common import Rac, PRELUDE
 from rac import mgrgen as G
 
 FAULT_SRC = '''
@@ -286,6 +286,56 @@ def main():
                 break
             for trig in trigs:
                 run_case(rac, list(hist), trig)
+    rac.section("knob-faults", "a LinearKnob (one / two targets) with dependants of its targets; the source is assigned and the k-th container store of "
+                "the update raises (the store of the source, of a knob target, of a dependant): the fault reaches the caller, the stores done are the "
+                "fault-free prefix, and repeating the same assignment after the fault is gone gives the fault-free final state (a knob that had already "
+                "recorded the new source value would add nothing the second time)", "2 knob shapes x every store position x 2 source values")
+    KNOB_SRC = FAULT_SRC + """
+import xdeps
+from xdeps.tasks import LinearKnob
+def mkknob(two):
+    ctl = Ctl(); d = FDict(ctl, "d", {"src": 10.0, "t0": 1.0, "t1": -1.0, "out": 0.0, "late": 0.0})
+    m = xdeps.Manager(); r = m.ref(d, "d")
+    m.register(LinearKnob("knob", r["src"], [0.5, 2.0][:2 if two else 1], [r["t0"], r["t1"]][:2 if two else 1]))
+    r["out"] = 2 * r["t0"] + r["t1"]; r["late"] = r["out"] + 1
+    r["src"] = 12.0
+    return ctl, d, m, r
+"""
+    envk = {}
+    exec(KNOB_SRC, envk)
+    for two, newv in itertools.product((False, True), (20.0, 7.5)):
+        ctl, d, m, r = envk["mkknob"](two)
+        ctl.arm(10 ** 9)
+        r["src"] = newv
+        T, ref = list(ctl.trace), dict(d)
+        for k in range(len(T)):
+            ctl, d, m, r = envk["mkknob"](two)
+            key = f"knob-fault two={two} src={newv} store {k}"
+            scr = PRELUDE + KNOB_SRC + f"ctl, d, m, r = mkknob({two})\nctl.arm({k})\ntry:\n    r['src'] = {newv}\n    raise SystemExit('the injected fault did not reach the caller')\nexcept Fault as ex:\n    print('fault reported:', ex)\n" \
+                f"ctl.disarm()\nr['src'] = {newv}\nprint(dict(d))\nassert dict(d) == {ref!r}, dict(d)\n"
+            ctl.arm(k)
+            got = None
+            try:
+                r["src"] = newv
+            except envk["Fault"]:
+                got = "Fault"
+            except Exception as ex:     # noqa
+                got = f"{type(ex).__name__}: {ex}"
+            rac.case(("knob-fault", two, newv, k), nontrivial=True, sample=dict(two_targets=two, source=newv, fault_at=k, stores=len(T)))
+            if got != "Fault":
+                rac.fail(key, f"C18 {key}: the fault did not reach the caller unchanged (got {got or 'normal return'})", scr, "Manager.run_tasks")
+                continue
+            if ctl.trace != T[:k]:
+                rac.fail(key, f"C18 {key}: stores performed {ctl.trace} != fault-free prefix {T[:k]}", scr, "LinearKnob.run")
+                continue
+            ctl.disarm()
+            try:
+                r["src"] = newv
+            except Exception as ex:     # noqa
+                rac.fail(key, f"C18 {key}: repeating the assignment raised {type(ex).__name__}: {ex}", scr, "Manager.set_value")
+                continue
+            if dict(d) != ref:
+                rac.fail(key, f"C18 {key}: repeating the assignment gives {dict(d)}, the fault-free run {ref}", scr, "LinearKnob.run")
     rac.section("aliases", "definitions that hand on the very same object (b = a; c = b; small integers), so that the repeated assignment "
                 "after a failed store produces objects identical to those of the failed attempt: every fault position, same checks",
                 "6 crafted histories x 4 triggers")
